@@ -373,6 +373,12 @@ def decorate(rng, scs):
                   and not sc.get("base")):
                 # timezone-aware timestamps with an offset that is not a multiple of most timeframes
                 sc["form"] = "aware:" + str(rng.choice([330, -300, 60, 345, -210]))
+        if (sc["obj"] == "hex" and sc.get("inds") and not sc.get("scale")
+                and all(f == "obj" for f in sc.get("member_forms", ["obj"]))):
+            # members given as objects, as configuration dicts or as another indicator's settings -- mixed
+            # within one Hexital (the registry must keep the order the caller gave)
+            if rng.random() < 0.35:
+                sc["member_forms"] = [rng.choice(["obj", "obj", "dict", "settings"]) for _ in sc["inds"]]
         mem = sc["inds"] + sc.get("late", [])
         tfs = [c.timeframe for c in mem if c.timeframe]
         for j, c in enumerate(mem):
